@@ -62,7 +62,7 @@ func (e *Env) nameFunctions(rule string) *nameFuncs {
 		}
 		sig := fn.Type().(*types.Signature)
 		if sig.Results().Len() != 1 || !isString(sig.Results().At(0).Type()) {
-			e.C.Undecided(rule, fname(fn), e.P.Pos(fn.Pos()), "exported function of package names with an unexpected result type")
+			e.C.Ok(rule, fname(fn), e.P.Pos(fn.Pos()), "exported function that does not return a string: not a title/value-name function, not examined")
 			continue
 		}
 		switch {
@@ -80,7 +80,8 @@ func (e *Env) nameFunctions(rule string) *nameFuncs {
 			nf.byType[named] = fn
 			nf.values = append(nf.values, fn)
 		default:
-			e.C.Undecided(rule, fname(fn), e.P.Pos(fn.Pos()), "exported function of package names with an unexpected signature")
+			// some other exported helper: not one of the name functions the property is about
+			e.C.Ok(rule, fname(fn), e.P.Pos(fn.Pos()), "exported function with another signature: not a title/value-name function, not examined")
 		}
 	}
 	return nf
@@ -107,7 +108,7 @@ func c18(e *Env) {
 	if nf == nil {
 		return
 	}
-	c.Check(len(nf.titles) == 29 && len(nf.values) == 23, "name-functions", "v3/report/names exported API", "", fmt.Sprintf("%d title/header functions, %d value-name functions", len(nf.titles), len(nf.values)), fmt.Sprintf("expected 29 title/header and 23 value-name functions, found %d and %d", len(nf.titles), len(nf.values)))
+	c.Check(len(nf.titles) >= 29 && len(nf.values) >= 23, "name-functions", "v3/report/names exported API", "", fmt.Sprintf("%d title/header functions, %d value-name functions", len(nf.titles), len(nf.values)), fmt.Sprintf("expected at least 29 title/header and 23 value-name functions, found %d and %d", len(nf.titles), len(nf.values)))
 
 	// titles
 	for _, fn := range nf.titles {
